@@ -86,6 +86,7 @@ class Pdb:
     def hydrogens(self, atom):
         return [b for b in self.bonded(atom) if b['el'] == 'H']
 
+    # -- edits
     def add(self, parent, name, el, dist):
         """New atom at `dist` from `parent`, in the direction (of 300 spread over the sphere) that stays farthest from every
         other atom: MakeBonds must see the bond to `parent` and no other (its widest criterion here: 1.8 A, 1.45 A for H)."""
@@ -106,7 +107,6 @@ class Pdb:
         self.lines.insert(self.lines.index(parent) + 1, new)
         return new
 
-    # -- edits
     def remove(self, atom):
         self.atoms.remove(atom)
         self.lines.remove(atom)
@@ -312,11 +312,12 @@ def record_canonicalize(mol, run=None):
         if k in mol.nodes:
             d = mol.nodes[k]
             labels = d.get('modifications') or []
-            lists.setdefault(id(labels), []).append(pos[k]) if 'modifications' in d else None
+            if 'modifications' in d:
+                lists.setdefault(id(labels), []).append(pos[k])
             final.append({'present': True, 'labels': [tindex.get(id(m), 0) for m in labels], 'attrs': [[a, canon(d[a])] for a in keys if a in d]})
         else:
             final.append({'present': False, 'labels': [], 'attrs': []})
-    shared = [sorted(v) for v in lists.values() if len({M['nodes'][p - 1]['res'] for p in v}) > 1]     # one list object on atoms of several residues
+    shared = [sorted(v) for v in lists.values() if len({M['nodes'][p - 1]['res'] for p in v}) > 1]     # one list object on atoms of several residues (D28; information)
     e = {'mol': M, 'templates': templates, 'calls': calls, 'final': final, 'warnings': cap.n, 'dropped': [], 'err': err,
          'keys': [k if isinstance(k, int) else repr(k) for k in order], 'residues': residues, 'shared_label_lists': shared,
          'new_atoms': sorted(repr(k) for k in mol.nodes if k not in pos)}
